@@ -94,6 +94,31 @@ class Evaluator:
         self.done = False   # a `return` on the path taken has been reached
         self.erase_subscripts = erase_subscripts
 
+    def decide(self, test):
+        """three-valued truth of a test: the rule's oracle answers for the atoms it knows; `not`, `and`, `or` are composed here, so an
+        oracle written for `x == 1` also decides `not x == 1` and `x == 1 and y`"""
+        r = self.cond(test, self)
+        if r is not None:
+            return r
+        if isinstance(test, ast.UnaryOp) and isinstance(test.op, ast.Not):
+            r = self.decide(test.operand)
+            return None if r is None else (not r)
+        if isinstance(test, ast.BoolOp):
+            rs = [self.decide(v) for v in test.values]
+            if isinstance(test.op, ast.And):
+                if any(r is False for r in rs):
+                    return False
+                return True if all(r is True for r in rs) else None
+            if any(r is True for r in rs):
+                return True
+            return False if all(r is False for r in rs) else None
+        if isinstance(test, ast.Compare) and len(test.ops) == 1 and isinstance(test.ops[0], (ast.NotEq, ast.IsNot)):
+            # x != y  is  not (x == y)
+            pos = ast.Compare(left=test.left, ops=[ast.Eq() if isinstance(test.ops[0], ast.NotEq) else ast.Is()], comparators=test.comparators)
+            r = self.cond(pos, self)
+            return None if r is None else (not r)
+        return None
+
     # ---------------------------------------------------------------- expr
     def ev(self, node):
         try:
@@ -175,7 +200,7 @@ class Evaluator:
                 return a * b
             return Unknown(f"operator {type(op).__name__}")
         if isinstance(node, ast.IfExp):
-            c = self.cond(node.test, self)
+            c = self.decide(node.test)
             if c is True:
                 return self._ev(node.body)
             if c is False:
@@ -294,7 +319,7 @@ class Evaluator:
                     nv = Unknown(str(e))
             self._assign(st.target, nv, st, aug=True)
         elif isinstance(st, ast.If):
-            c = self.cond(st.test, self)
+            c = self.decide(st.test)
             if c is True:
                 self.run(st.body)
             elif c is False:
